@@ -1,6 +1,6 @@
 (* C06 - cancellation is final, contained, and safe against late responses.  Statements only. *)
 From Coq Require Import List Arith Bool.
-From Crux Require Import Rt.Lang Rt.Rt Rt.Host Rt.Check Rt.Frame Rt.Props Rt.Silent.
+From Crux Require Import Rt.Lang Rt.Rt Rt.Host Rt.Check Rt.Frame Rt.Props Rt.Silent Rt.AbortTop.
 Import ListNotations.
 
 (* Full statement (kept visible): after an abort / task abort / request drop, no output whose origin
@@ -40,6 +40,15 @@ Theorem C06_aborted_outputs_only_shrink_poll_next : forall X fuel cid w H r H',
   X < length (cmds H) -> was_aborted X H = true -> poll_next fuel cid w H = Some (r, H') ->
   is_suffix (c_eff (gcmd X H')) (c_eff (gcmd X H)) /\ is_suffix (c_evs (gcmd X H')) (c_evs (gcmd X H)).
 Proof. exact aborted_outputs_only_shrink_poll_next. Qed.
+
+(* The trace predicate that the check evaluates on the implementation holds of EVERY trace of the
+   model: for every command, every schedule (late and repeated resolutions, drops, further aborts, tasks
+   spawned onto the aborted command, any number of inspections) and every positive fuel, once the
+   outermost command has been aborted its leftovers can be taken once, nothing new ever appears, and it
+   reports done as soon as both queues have been taken. *)
+Theorem C06_ok_holds_of_model_top_abort : forall fuel c acts os,
+  direct (S fuel) c acts = Some os -> C06_scan (top_names c) acts os = true.
+Proof. exact direct_C06_scan. Qed.
 
 (* A late resolution is an ordinary value, never a panic, in the model: Resolve::resolve is total. *)
 Theorem C06_late_resolve_total : forall e v H, exists code e' H', resolve_req e v H = (code, e', H') /\ code <= 2.
